@@ -1028,7 +1028,10 @@ class CStrRes(Res):
     lua = False
 
     def __init__(self, text, flen=None):
-        Res.__init__(self, "ret_cstr_%d%s" % (len(text), "_len%d" % flen if flen else ""))
+        # text None: the library returns NULL, which is a blank / zero-length value on the Fortran side
+        self.null = text is None
+        text = text or ""
+        Res.__init__(self, "ret_cstr_%s%s" % ("null" if self.null else len(text), "_len%d" % flen if flen else ""))
         self.text = text
         self.flen = flen
         if flen:
@@ -1038,6 +1041,8 @@ class CStrRes(Res):
         return "const char *"
 
     def ret(self, lang):
+        if self.null:
+            return ["return NULL;"]
         return ['return "%s";' % self.text]
 
     def observe(self, extra=None):
